@@ -188,20 +188,20 @@ class Handlers:
             seen.add(cur)
             mod = self.src.module(cur[0])
             for node in ast.walk(self.funcs[cur]):
-                if isinstance(node, ast.Call):
-                    f = node.func
-                    if isinstance(f, ast.Name):
-                        if (cur[0], f.id) in self.funcs:
-                            todo.append((cur[0], f.id))
-                        elif f.id in mod.imports:
-                            im, iname = mod.imports[f.id]
-                            if iname and (im, iname) in self.funcs:
-                                todo.append((im, iname))
-                    elif isinstance(f, ast.Attribute) and isinstance(f.value, ast.Name) and f.value.id in mod.imports:
-                        im, iname = mod.imports[f.value.id]
-                        target = f"{im}.{iname}" if iname else im
-                        if (target, f.attr) in self.funcs:
-                            todo.append((target, f.attr))
+                # every *reference* to a package function counts, not only direct calls: helpers are handed to
+                # asyncio.to_thread / run_in_executor / partial as values and run all the same
+                if isinstance(node, ast.Name) and isinstance(node.ctx, ast.Load):
+                    if (cur[0], node.id) in self.funcs:
+                        todo.append((cur[0], node.id))
+                    elif node.id in mod.imports:
+                        im, iname = mod.imports[node.id]
+                        if iname and (im, iname) in self.funcs:
+                            todo.append((im, iname))
+                elif isinstance(node, ast.Attribute) and isinstance(node.value, ast.Name) and node.value.id in mod.imports:
+                    im, iname = mod.imports[node.value.id]
+                    target = f"{im}.{iname}" if iname else im
+                    if (target, node.attr) in self.funcs:
+                        todo.append((target, node.attr))
         return seen
 
     def component_calls(self, fn, roles):
